@@ -50,29 +50,16 @@ OTHER_POS = ["return", "attr", "var"]
 N_SEEDS = 6
 WARMUPS = list(range(13))
 
-CFG = ("CONSTANTS\n Procs = {%s}\n Progs = {%s}\n Opts = {%s}\n Warmups = {%s}\n MaxSteps = %d\n"
-       " Export = %s\n SameSeed = %s\n Canonical = %s\n")
+FAMILIES = ("mixed", "seeds", "prefix")
+CFG = "CONSTANTS\n Families = {%s}\n Export = %s\n"
 
 
-def det_cfg(procs, progs, opts, warm, steps, export="TRUE", same="FALSE", canon="TRUE"):
-  return CFG % (",".join(str(x) for x in range(1, procs + 1)),
-                ",".join(str(x) for x in range(1, progs + 1)),
-                ",".join('"%s"' % o for o in opts), ",".join(str(w) for w in warm), steps,
-                export, same, canon)
-
-
-MODEL_CFGS = {
-    "mixed": det_cfg(3, 3, OPTS, [0, 4], 3),
-    "seeds": det_cfg(N_SEEDS, 1, ["default"], [0], 2, canon="FALSE"),
-    "prefix": det_cfg(2, 1, OPTS, WARMUPS, 2, same="TRUE"),
-}
-
-
-def run_model(name):
-  r = tlc.run("Determinism", "SPECIFICATION Spec\n" + MODEL_CFGS[name] +
+def run_model():
+  """One TLC run over the three families of Determinism.tla (the bounds are in the spec)."""
+  r = tlc.run("Determinism", "SPECIFICATION Spec\n" + CFG % (",".join('"%s"' % f for f in FAMILIES), "TRUE") +
               "INVARIANT Consistent\nINVARIANT ExportInv\n", workers=1, timeout=1800)
   if r.violated:
-    raise common.Machinery("Determinism.tla (%s) violated %s" % (name, r.violated))
+    raise common.Machinery("Determinism.tla violated %s" % r.violated)
   return r
 
 
@@ -274,7 +261,7 @@ def main():
   else:
     import c01
     # 1. the models: history spaces, program generators (JVMs side by side)
-    fm = {name: jvm.submit(run_model, name) for name in MODEL_CFGS}
+    fm = jvm.submit(run_model)
     nprog = 240 if thorough else 45
     fp = jvm.submit(tlc.run, "ProgGen", c01.gen_cfg(9, 2), workers=1, timeout=3000,
                     seed=run.seed + 40, simulate="num=%d" % nprog, depth=12)
@@ -350,8 +337,9 @@ def main():
     jobs.append({"family": "prefix", "seeds": {p: hs[0] for p in procs}, "progs": progs,
                  "steps": session_steps(procs, seq, dict(zip(procs, WARMUPS)), rep)})
     # 3c. mixed histories (need the model's histories)
-    models = {name: f.result() for name, f in fm.items()}
-    hists = [c["h"] for c in models["mixed"].cases]
+    model = fm.result()
+    models = {f: [c["h"] for c in model.cases if c["f"] == f] for f in FAMILIES}
+    hists = models["mixed"]
     common.require(len(hists) > 500, "history space too small: %d" % len(hists))
     mprogs = gen[6:] + snip[2:] + oprogs[3:6] + uprogs[:1]
     rng.shuffle(mprogs)
@@ -378,7 +366,7 @@ def main():
                        "mode": s["mode"], "warm": s["warm"], "obs": s["obs"], "errs": s["errs"]}
                       for s in steps]} for steps in results]
   nv, bad, rr = tlc.validate_cases(
-      "TraceC04", cases, cfg="INIT TInit\nNEXT TNext\n" + det_cfg(1, 1, OPTS, [0], 1000000, export="FALSE") +
+      "TraceC04", cases, cfg="INIT TInit\nNEXT TNext\n" + CFG % ('"mixed"', "FALSE") +
       "INVARIANT Ok\nINVARIANT Agree\nINVARIANT CovInv\nPOSTCONDITION Done\n", timeout=3000)
   common.require(bad is None, "TraceC04 invariant cannot fail")
   cov = {c["i"] - 1: c["per"] for c in tlc.parse_cases(rr.out, "COV")}
@@ -396,6 +384,8 @@ def main():
           "sampled model histories back to back; seeds: 6 hash seeds x every program; prefix: 13 processes with one "
           "hash seed starting after 0..12 units of earlier work x the same program sequence); distinct_nontrivial = "
           "distinct (program, options) analysed at least twice under different circumstances")
+  run.put("worker_cpu_s_by_family", {f: round(sum(s["cpu"] for j, st in zip(jobs, results) if j["family"] == f
+                                                  for s in st), 1) for f in sorted({j["family"] for j in jobs})})
   run.put("errors_seen", sum(len(s["errs"]) for st in results for s in st))
   run.put("exceptions_seen", sum(1 for st in results for s in st if s["obs"][0].startswith("exc:")))
   for j, st in zip(jobs[:3], results):
@@ -404,12 +394,11 @@ def main():
                 "obs": st[0]["obs"]})
 
   if not a.replay:
-    for name, r in models.items():
-      run.put("states_" + name, r.distinct)
-      run.put("histories_in_model_" + name, len(r.cases))
-    run.put("states", sum(r.distinct for r in models.values()))
-    run.put("transitions", sum(r.generated for r in models.values()))
-    run.put("histories_in_model", sum(len(r.cases) for r in models.values()))
+    for name, hs_ in models.items():
+      run.put("histories_in_model_" + name, len(hs_))
+    run.put("states", model.distinct)
+    run.put("transitions", model.generated)
+    run.put("histories_in_model", len(model.cases))
     # vacuity guards, stated on what the spec counted per (program, options) of each session
     fam = {f: [k[3] for k in keys if k[0] == f] for f in ("seeds", "prefix", "mixed")}
     common.require(fam["seeds"] and all(p["seeds"] == N_SEEDS for p in fam["seeds"]),
@@ -422,17 +411,17 @@ def main():
                    {p["opt"] for p in fam["mixed"]} == set(OPTS),
                    "vacuity: mixed histories repeat too few (program, options)")
     # the executed sessions embed every pair of the seeds / prefix models
-    want = {(h[0]["proc"], h[1]["proc"]) for h in (c["h"] for c in models["seeds"].cases)
+    want = {(h[0]["proc"], h[1]["proc"]) for h in models["seeds"]
             if h[0]["proc"] != h[1]["proc"]}
     common.require(len(want) == N_SEEDS * (N_SEEDS - 1), "seeds model: %d process pairs" % len(want))
-    want = {(h[0]["warm"], h[1]["warm"]) for h in (c["h"] for c in models["prefix"].cases)
+    want = {(h[0]["warm"], h[1]["warm"]) for h in models["prefix"]
             if h[0]["proc"] != h[1]["proc"] and h[0]["warm"] != h[1]["warm"]}
     st = [s for s in jobs[1]["steps"] if s["prog"] == jobs[1]["steps"][0]["prog"]][:len(WARMUPS)]
     have = {(x["warm"], y["warm"]) for x in st for y in st if x["proc"] != y["proc"]}
     common.require(want and want <= have, "vacuity: prefix session misses %d of the model's pairs of "
                    "amounts of earlier work" % len(want - have))
     run.put("prefix_pairs_embedded", len(want))
-    same = {(h[0]["warm"], h[1]["warm"]) for h in (c["h"] for c in models["prefix"].cases)
+    same = {(h[0]["warm"], h[1]["warm"]) for h in models["prefix"]
             if h[0]["proc"] == h[1]["proc"]}
     run.put("prefix_same_process_pairs_in_model", len(same))
     # the unsolved part of the protocols dimension must really have been printed
